@@ -2054,24 +2054,110 @@ Section Proofs.
 End Proofs.
 
 (* ------------------------------------------------------------------ realtime.SQLCache *)
-Lemma rt_get_key_flag m : forall s f v,
-  (forall k v', In (k, v') m -> snd k = v') -> rt_get m (s, f) = Some v -> v = f.
+Lemma rt_key_eqb_spec a b : rt_key_eqb a b = true <-> a = b.
 Proof.
-  induction m as [|[k v0] r IH]; cbn; intros s f v Hm; [discriminate|].
-  destruct (rt_key_eqb k (s, f)) eqn:E.
-  - intros H. inversion H; subst. unfold rt_key_eqb in E. apply andb_true_iff in E. destruct E as [_ E].
-    cbn in E. apply Bool.eqb_prop in E. rewrite <- E. symmetry. apply (Hm k v). auto.
-  - apply IH. intros k' v' Hin. apply Hm. auto.
+  destruct a, b; cbn; try (split; [discriminate|congruence]).
+  - rewrite Nat.eqb_eq. split; congruence.
+  - rewrite andb_true_iff, !Nat.eqb_eq. split; [intros []; congruence|intros H; inversion H; auto].
+  - rewrite Nat.eqb_eq. split; congruence.
 Qed.
 
-(* with the flag in the key, every call runs SQL generated for its own flag *)
-Theorem rt_transparent cs : forall m,
-  (forall k v, In (k, v) m -> snd k = v) ->
-  Forall2 (fun c out => fst out = rc_flag c) cs (rt_run true m cs).
+Definition rt_not_dead (dead : list nat) (g : nat) : Prop := existsb (Nat.eqb g) dead = false.
+
+(* every cache entry was generated for its own key; an id()-keyed entry whose object is still alive belongs to the
+   current owner of that address *)
+Definition rt_entry_ok (dead : list nat) (owners : list (nat * nat * nat)) (e : rt_entry) : Prop :=
+  re_flag e = re_fkey e /\
+  match re_key e with
+  | KDict b c => re_sql e = (1, b, c)
+  | KStr p => re_sql e = (2, p, 0)
+  | KAddr a => exists g mo, re_ref e = Some g /\ re_sql e = (0, mo, 0) /\ (rt_not_dead dead g -> In (a, g, mo) owners)
+  end.
+Definition rt_inv (m : list rt_entry) (dead : list nat) (owners : list (nat * nat * nat)) : Prop :=
+  forall e, In e m -> rt_entry_ok dead owners e.
+
+Definition rt_out_ok (ev : rt_event) (out : option (sqlid * bool * bool)) : Prop :=
+  match rt_expected ev, out with
+  | Some (q, f), Some (q', f', _) => q' = q /\ f' = f
+  | None, None => True
+  | _, _ => False
+  end.
+
+Lemma rt_entry_ok_mono dead owners owners' e :
+  (forall o, In o owners -> In o owners') -> rt_entry_ok dead owners e -> rt_entry_ok dead owners' e.
 Proof.
-  induction cs as [|c r IH]; cbn; intros m Hm; [constructor|].
-  unfold rt_step, rt_key. destruct (rc_use_cache c); [destruct (rt_get m (rc_settings c, rc_flag c)) eqn:E|]; cbn.
-  - constructor; [cbn; eapply rt_get_key_flag; eauto | apply IH; auto].
-  - constructor; [reflexivity|]. apply IH. intros k v [H|H]; [inversion H; auto | auto].
-  - constructor; [reflexivity|]. apply IH. intros k v [H|H]; [inversion H; auto | auto].
+  intros Hsub [Hf Hk]. split; auto. destruct (re_key e); auto.
+  destruct Hk as (g & mo & a1 & a2 & a3). exists g, mo. repeat split; auto.
+Qed.
+
+Lemma rt_step_good m dead owners ev :
+  rt_inv m dead owners ->
+  snd (rt_wf_step (owners, dead) ev) = true ->
+  let r := rt_step rt_good (m, dead) ev in
+  let w := fst (rt_wf_step (owners, dead) ev) in
+  rt_inv (fst (fst r)) (snd (fst r)) (fst w) /\ snd (fst r) = snd w /\ rt_out_ok ev (snd r).
+Proof.
+  intros Hinv Hwf. destruct ev as [s uc f|g0].
+  - (* a call *)
+    set (k := rt_key_of rt_good s).
+    set (owners' := fst (fst (rt_wf_step (owners, dead) (RtCall s uc f)))).
+    assert (Hsub : forall o, In o owners -> In o owners').
+    { unfold owners'. destruct s; cbn; auto. }
+    assert (Hd : snd (fst (rt_wf_step (owners, dead) (RtCall s uc f))) = dead) by (destruct s; reflexivity).
+    set (fresh := {| re_key := k; re_fkey := f; re_sql := rt_sql s; re_flag := f;
+                     re_ref := match s with RObj _ g _ => Some g | _ => None end |}).
+    assert (Hfresh : rt_entry_ok dead owners' fresh).
+    { split; [reflexivity|]. unfold fresh, k, owners'. destruct s; cbn; auto.
+      exists gen, model. repeat split; auto. }
+    assert (Hmiss : rt_inv (fresh :: filter (fun e => negb (rt_match k f e)) m) dead owners').
+    { intros e [<-|Hin]; auto. apply filter_In in Hin. destruct Hin as [Hin _].
+      eapply rt_entry_ok_mono; eauto. }
+    assert (Hkeep : rt_inv m dead owners') by (intros e Hin; eapply rt_entry_ok_mono; eauto).
+    assert (Hhit : forall e, rt_find m k f = Some e -> rt_dead dead e = false -> re_sql e = rt_sql s /\ re_flag e = f).
+    { intros e He Hnd. unfold rt_find in He. apply find_some in He. destruct He as [Hin Hm].
+      unfold rt_match in Hm. apply andb_true_iff in Hm. destruct Hm as [Hk Hfk].
+      apply rt_key_eqb_spec in Hk. apply Bool.eqb_prop in Hfk.
+      destruct (Hinv e Hin) as [Hfl Hkind]. split; [|rewrite Hfl, Hfk; reflexivity].
+      rewrite Hk in Hkind. unfold k in Hkind. destruct s as [a g mo'|b c|p]; cbn in Hkind; auto.
+      destruct Hkind as (g1 & m1 & r1 & r2 & r3). unfold rt_dead in Hnd. rewrite r1 in Hnd.
+      specialize (r3 Hnd). cbn in Hwf. apply andb_true_iff in Hwf. destruct Hwf as [_ Hall].
+      rewrite forallb_forall in Hall. specialize (Hall _ r3). cbn in Hall.
+      apply andb_true_iff in Hall. destruct Hall as [H1 H2]. rewrite Nat.eqb_refl in H1. cbn in H1. apply Nat.eqb_eq in H1. subst g1.
+      rewrite Nat.eqb_refl in H2. cbn in H2. apply andb_true_iff in H2. destruct H2 as [_ H2]. apply Nat.eqb_eq in H2. subst m1.
+      rewrite r2. reflexivity. }
+    cbv zeta. rewrite Hd. fold owners'.
+    cbn [rt_step rt_good rp_flag_in_key rp_liveness_called andb]. fold k. fold fresh.
+    assert (Hm3 : forall uc', rt_inv (fresh :: filter (fun e => negb (rt_match k f e)) m) dead owners' /\ dead = dead /\
+                              rt_out_ok (RtCall s uc' f) (Some (rt_sql s, f, false))).
+    { intros uc'. split; [exact Hmiss|split; [reflexivity|cbn; split; reflexivity]]. }
+    destruct uc; [|cbn [fst snd]; apply Hm3].
+    destruct (rt_find m k f) as [e|] eqn:Ef; [|cbn [fst snd]; apply Hm3].
+    destruct (rt_dead dead e) eqn:Ed; [cbn [fst snd]; apply Hm3|].
+    destruct (Hhit e eq_refl Ed) as [H1 H2]. cbn [fst snd]. split; [exact Hkeep|split; [reflexivity|cbn; split; assumption]].
+  - (* the object dies *)
+    cbn. split; [|split; [reflexivity|exact Logic.I]]. intros e Hin. destruct (Hinv e Hin) as [Hf Hk]. split; auto.
+    destruct (re_key e); auto. destruct Hk as (g & mo & a1 & a2 & a3). exists g, mo. repeat split; auto.
+    intros Hnd. unfold rt_not_dead in Hnd. cbn in Hnd. apply orb_false_iff in Hnd. destruct Hnd as [Hne Hnd].
+    apply filter_In. split; [apply a3; exact Hnd|]. cbn. rewrite Hne. reflexivity.
+Qed.
+
+(* with the flag and the configure() values in the key and the weak reference really called, every call - cached or
+   not, through any sequence of calls, deletions and address reuse - runs the SQL of its own settings and flag *)
+Theorem rt_transparent evs : forall m dead owners,
+  rt_inv m dead owners -> rt_wf (owners, dead) evs = true ->
+  Forall2 rt_out_ok evs (rt_run rt_good (m, dead) evs).
+Proof.
+  induction evs as [|ev r IH]; intros m dead owners Hinv Hwf; [constructor|].
+  cbn [rt_wf rt_run] in *.
+  destruct (rt_wf_step (owners, dead) ev) as [[owners' dead'] ok] eqn:Ew. apply andb_true_iff in Hwf. destruct Hwf as [Hok Hr].
+  pose proof (rt_step_good m dead owners ev Hinv) as H. rewrite Ew in H. cbn [fst snd] in H. specialize (H Hok).
+  destruct (rt_step rt_good (m, dead) ev) as [[m1 dead1] out] eqn:Es. cbn [fst snd] in H. destruct H as (I1 & Ed & Ho).
+  subst dead1. constructor; auto. eapply IH; eauto.
+Qed.
+
+Lemma rt_all_okb_of_Forall2 evs outs : Forall2 rt_out_ok evs outs -> rt_all_okb evs outs = true.
+Proof.
+  induction 1 as [|ev o r r' H _ IH]; [reflexivity|]. cbn. rewrite IH, andb_true_r.
+  unfold rt_out_ok in H. unfold rt_out_okb. destruct (rt_expected ev) as [[q f]|]; destruct o as [[[q' f'] c]|]; try contradiction; auto.
+  destruct H as [-> ->]. destruct q as [[a b] d]. cbn. rewrite !Nat.eqb_refl. destruct f; reflexivity.
 Qed.
